@@ -445,9 +445,15 @@ func (w *vfWorld) send(cl *vfClient, method string, params string) uint64 {
 
 // disconnect closes the connection the way wsConn.listen does on a read
 // error, without waiting for the worker.
-func (w *vfWorld) disconnect(cl *vfClient) {
+func (w *vfWorld) disconnect(cl *vfClient, before ...func()) {
 	c := cl.c
-	c.Enqueue(func() { c.dispose() })
+	c.Enqueue(func() {
+		// (what ran before this point ran for a live connection)
+		for _, f := range before {
+			f()
+		}
+		c.dispose()
+	})
 }
 
 func vfItoa(n uint64) string {
